@@ -210,7 +210,16 @@ def descriptor_purposes(run):
     if not need <= got:
         raise MachineryError(f'descriptor transaction purposes not reached in Mdib.tla: {sorted(need - got)}')
     run.note('descriptor_transaction_purposes', len(behs))
-    return behs
+    # ... and for the situations that need a history of transactions (Mdib_cpurpose.cfg: context + descriptor
+    # transactions over a two-descriptor universe), e.g. a context descriptor updated while it owns a state that an
+    # earlier transaction disassociated and unbound
+    res = run_tlc('MdibMC', 'Mdib_cpurpose.cfg', workers=1, timeout=1800)
+    run.add_tlc(res)
+    more = json_lines(res.stdout, 'BEH')
+    if not any('U:upd:owns-unbound-state:commit' in situation_labels(b) for b in more):
+        raise MachineryError('history purpose U:upd:owns-unbound-state:commit not reached in Mdib.tla')
+    run.note('history_purposes', len(more))
+    return behs + more
 
 
 def lifecycle_behaviours(run):
